@@ -3,7 +3,7 @@
 use super::Ctx;
 use crate::util::*;
 use serde_json::json;
-use zipora::blob_store::sorted_uint_vec::{SortedUintVecBuilder, SortedUintVecConfig};
+use zipora::blob_store::sorted_uint_vec::{SortedUintVec, SortedUintVecBuilder, SortedUintVecConfig};
 
 #[derive(Clone, Copy, Debug)]
 pub struct SCfg { pub log2: u8, pub ow: u8, pub sw: u8, pub simd: bool }
@@ -15,25 +15,98 @@ pub fn preset(p: usize) -> SCfg {
 
 fn cfg_valid(c: &SCfg) -> bool { (4..=8).contains(&c.log2) && (8..=32).contains(&c.ow) && (16..=64).contains(&c.sw) && !(58..=63).contains(&c.sw) }
 
-pub fn sorted_case(cx: &mut Ctx, c: SCfg, vals: &[u64], force_coq: bool) {
+pub const VIAS: &[&str] = &["push", "extend", "push+extend", "new/default builder", "with_pool", "builder reused after a refusal"];
+
+/// A builder that has refused a value (push) or stopped in the middle of an `extend` is still a builder: what it accepted before and
+/// what it accepts afterwards is what `finish` has to store.  Oracle only (the model's builder stops at the first refusal).
+fn sorted_case_reuse(cx: &mut Ctx, cell: &str, cfg: SortedUintVecConfig, bs: usize, vals: &[u64], cj: serde_json::Value) {
+    let r = guarded(|| -> Result<Option<String>, String> {
+        let mut b = SortedUintVecBuilder::with_config(cfg);
+        let mut acc: Vec<u64> = vec![];
+        let mut k = 0usize;
+        while k < vals.len() {
+            if k % 7 == 3 { // a chunk through extend: it stops at the first value it refuses
+                let ch = &vals[k..(k + 5).min(vals.len())];
+                // the shadow follows the builder's answers (the property lets it refuse): extend stops at the first refusal, len() says where
+                let res = b.extend(ch.iter().copied());
+                let taken = if res.is_ok() { ch.len() } else { b.len().saturating_sub(acc.len()).min(ch.len()) };
+                acc.extend_from_slice(&ch[..taken]);
+                k += ch.len();
+            } else {
+                let v = vals[k];
+                if b.push(v).is_ok() { acc.push(v); }
+                k += 1;
+            }
+            if b.len() != acc.len() { return Ok(Some(format!("builder len {} after {} accepted values", b.len(), acc.len()))); }
+        }
+        match b.finish() { Err(_) => Err("refused".into()), Ok(sv) => Ok(reread(&sv, &acc, bs).map(|d| format!("{} accepted values: {}", acc.len(), d))) }
+    });
+    match r { Err(p) => cx.sum.fail(cell, None, cj, &format!("panicked: {}", p)), Ok(Err(_)) => cx.sum.dist("sorted_build_refused"), Ok(Ok(Some(d))) => cx.sum.fail(cell, None, cj, &d), Ok(Ok(None)) => cx.sum.dist("sorted_build_ok") }
+}
+
+/// everything the property says about a built vector, read through `sv` (used for the images rebuilt by from_bytes)
+fn reread(sv: &SortedUintVec, vals: &[u64], bs: usize) -> Option<String> {
+    let n = vals.len();
+    if sv.len() != n || sv.is_empty() != (n == 0) { return Some(format!("len {} / is_empty {} for {} elements", sv.len(), sv.is_empty(), n)); }
+    for i in 0..n { if sv.get(i).ok() != Some(vals[i]) { return Some(format!("element {} reads back {:?}, stored {}", i, sv.get(i).ok(), vals[i])); } }
+    for i in 0..n.saturating_sub(1) { if sv.get2(i).ok() != Some((vals[i], vals[i + 1])) { return Some(format!("get2({}) = {:?}", i, sv.get2(i).ok())); } }
+    if sv.get(n).is_ok() || sv.get(n + 1).is_ok() || sv.get(usize::MAX).is_ok() || sv.get2(n.saturating_sub(1)).is_ok() { return Some("read past the end not refused".into()); }
+    let nb = (n + bs - 1) / bs;
+    // a buffer larger than a block is fine, one smaller than a block has to be refused (or filled correctly), never a panic
+    for b in 0..nb { let want = &vals[b * bs..((b + 1) * bs).min(n)];
+        let mut o = vec![0xDEAD_BEEF_u64; bs + 3];
+        if sv.get_block(b, &mut o).is_err() { return Some(format!("get_block({}) into a buffer of {} refused", b, bs + 3)); }
+        if &o[..want.len()] != want { return Some(format!("get_block({}) into a larger buffer differs at {:?}", b, o.iter().zip(want).position(|(x, y)| x != y))); }
+        let mut small = vec![0xDEAD_BEEF_u64; bs - 1];
+        if sv.get_block(b, &mut small).is_ok() && small[..want.len().min(bs - 1)] != want[..want.len().min(bs - 1)] { return Some(format!("get_block({}) into a short buffer accepted and wrong", b)); } }
+    let mut o = vec![0u64; bs];
+    if sv.get_block(nb, &mut o).is_ok() { return Some("get_block past the end not refused".into()); }
+    None
+}
+
+pub fn sorted_case(cx: &mut Ctx, c: SCfg, vals: &[u64], force_coq: bool) { sorted_case_via(cx, c, vals, force_coq, 0) }
+
+/// `via`: how the builder is fed (VIAS); the model knows one way only, which all of them have to agree with
+pub fn sorted_case_via(cx: &mut Ctx, c: SCfg, vals: &[u64], force_coq: bool, via: u32) {
     let name = match (c.log2, c.ow, c.sw, c.simd) { (6, 16, 32, true) => "default".to_string(), (7, 20, 40, true) => "performance".to_string(), (6, 12, 24, false) => "memory".to_string(),
         _ => format!("custom/block{}", 1u32 << c.log2.min(20)) };
     let cell = format!("SortedUintVec/{}", name);
     cx.sum.eval(&cell, &format!("{:?} {:?}", c, vals), vals.len() >= 2);
     cx.sum.cell_status(&cell, "M+S");
-    let cj = json!({"cell": "sorted", "cfg": [c.log2, c.ow, c.sw, c.simd as u8], "values": vals.iter().map(|v| v.to_string()).collect::<Vec<_>>()});
+    let cj = json!({"cell": "sorted", "cfg": [c.log2, c.ow, c.sw, c.simd as u8], "via": via, "values": vals.iter().map(|v| v.to_string()).collect::<Vec<_>>()});
+    cx.sum.dist(&format!("sorted_via_{}", VIAS[via as usize % VIAS.len()]));
+    let is_default = (c.log2, c.ow, c.sw, c.simd) == (6, 16, 32, true);
     let cfg = SortedUintVecConfig { log2_block_units: c.log2, offset_width: c.ow, sample_width: c.sw, use_simd: c.simd };
     let valid = cfg_valid(&c);
     let bs: usize = if valid { 1usize << c.log2 } else { 64 };
     let nblocks = (vals.len() + bs - 1) / bs;
     let class: Option<&str> = None;
     let sorted_in = vals.windows(2).all(|w| w[0] <= w[1]);
+    if via % 6 == 5 { if valid { sorted_case_reuse(cx, &cell, cfg, bs, vals, cj); } return; }
     let r = guarded(|| {
-        let mut b = SortedUintVecBuilder::with_config(cfg);
-        for &v in vals { if b.push(v).is_err() { return Err("push refused".to_string()); } }
-        if b.len() != vals.len() { return Err(format!("BUILDER-LEN {}", b.len())); }
+        let mut b = match via % 6 {
+            3 if is_default => if vals.len() % 2 == 0 { SortedUintVecBuilder::new() } else { SortedUintVecBuilder::default() },
+            4 => match zipora::memory::SecureMemoryPool::new(zipora::memory::SecurePoolConfig::small_secure()).ok().and_then(|p| std::sync::Arc::try_unwrap(p).ok()) {
+                     Some(pool) => SortedUintVecBuilder::with_config(cfg).with_pool(pool), None => SortedUintVecBuilder::with_config(cfg) },
+            _ => SortedUintVecBuilder::with_config(cfg) };
+        if !b.is_empty() { return Err("BUILDER-LEN a new builder is not empty".to_string()); }
+        match via % 6 {
+            1 => { if b.extend(vals.iter().copied()).is_err() { return Err("push refused".to_string()); } }
+            2 => { let k = vals.len() / 2; for &v in &vals[..k] { if b.push(v).is_err() { return Err("push refused".to_string()); } }
+                   if b.extend(vals[k..].iter().copied()).is_err() { return Err("push refused".to_string()); } }
+            _ => { for &v in vals { if b.push(v).is_err() { return Err("push refused".to_string()); } } } }
+        if b.len() != vals.len() || b.is_empty() != vals.is_empty() { return Err(format!("BUILDER-LEN {}", b.len())); }
         b.finish().map_err(|e| format!("{:?}", e))
     });
+    if vals.is_empty() && is_default {
+        // the constructors of an empty vector: SortedUintVec::new / default / with_config
+        match guarded(|| { let a = SortedUintVec::new().map_err(|e| format!("{:?}", e))?; let b = SortedUintVec::default(); let c2 = SortedUintVec::with_config(cfg).map_err(|e| format!("{:?}", e))?;
+                           Ok::<_, String>(reread(&a, &[], 64).or(reread(&b, &[], 64)).or(reread(&c2, &[], 64))) }) {
+            Err(p) => cx.sum.fail(&cell, None, cj.clone(), &format!("empty constructors panicked: {}", p)),
+            Ok(Err(e)) => cx.sum.fail(&cell, None, cj.clone(), &format!("SortedUintVec::new() failed: {}", e)),
+            Ok(Ok(Some(d))) => cx.sum.fail(&cell, None, cj.clone(), &format!("empty vector: {}", d)),
+            Ok(Ok(None)) => {} }
+    }
     let mut obs: Vec<String> = vec![];
     match r {
         Err(p) => { obs.push("[(-1)]%Z".into()); cx.sum.fail(&cell, class, cj.clone(), &format!("build panicked: {}", p)); }
@@ -79,6 +152,15 @@ pub fn sorted_case(cx: &mut Ctx, c: SCfg, vals: &[u64], force_coq: bool) {
                                            None => chk!(false, "get_block({}) refused", b) }
                     }
                     for (k, blk) in blocks[nblocks..].iter().enumerate() { chk!(blk.is_none(), "get_block past the end (#{}) not refused", k); }
+                    if bad.is_none() && sv.config().block_size() != bs { bad = Some(format!("config().block_size() = {}", sv.config().block_size())); }
+                    // the serialised image (to_bytes) rebuilt by from_bytes is the same vector; an image of the image as well
+                    if bad.is_none() {
+                        let rt = guarded(|| { let img = sv.to_bytes();
+                            match SortedUintVec::from_bytes(&img) { Err(e) => Some(format!("from_bytes(to_bytes()) refused: {:?}", e)),
+                                Ok(sv2) => reread(&sv2, vals, bs).map(|d| format!("after to_bytes/from_bytes: {}", d)).or_else(|| if sv2.to_bytes() != img { Some("to_bytes of the rebuilt vector differs from the image it was built from".to_string()) } else { None }) } });
+                        match rt { Err(p) => bad = Some(format!("to_bytes/from_bytes panicked: {}", p)), Ok(Some(d)) => bad = Some(d), Ok(None) => {} }
+                    }
+                    if bad.is_none() { match guarded(|| reread(&sv, vals, bs)) { Err(p) => bad = Some(format!("second read panicked: {}", p)), Ok(Some(d)) => bad = Some(format!("second read (larger / shorter block buffers): {}", d)), Ok(None) => {} } }
                     if let Some(d) = bad { cx.sum.fail(&cell, class, cj.clone(), &d); }
                     // observation for the model
                     obs.push(format!("[{}; {}]%Z", len, nb));
@@ -124,7 +206,11 @@ pub fn gen_sorted(cx: &mut Ctx, r: &mut Rng, i: usize) {
     let mut vals = vec![];
     for k in 0..n { cur = cur.saturating_add(steps[k]); vals.push(cur); }
     if n >= 2 && r.chance(1, 25) { let k = r.below(n as u64 - 1) as usize + 1; vals[k] = vals[k - 1].saturating_sub(1 + r.below(3)); } // unsorted input: must be refused or stored
-    sorted_case(cx, c, &vals, false);
+    let via = if r.chance(1, 2) { 0 } else { r.range(1, 4) as u32 };
+    sorted_case_via(cx, c, &vals, false, via);
+    if i % 4 == 1 && n >= 2 { // a few values out of order: refused one by one, the rest is kept
+        let mut v3 = vals.clone(); for _ in 0..r.range(1, 3) { let k = r.below(n as u64 - 1) as usize + 1; v3[k] = v3[k - 1].saturating_sub(1 + r.below(3)); }
+        sorted_case_via(cx, c, &v3, false, 5); }
     if n >= 2 && i % 3 == 0 {
         // the last element of a block sits exactly 2^w-1 / 2^w above the block's first
         let m = bs.min(n);
@@ -135,6 +221,6 @@ pub fn gen_sorted(cx: &mut Ctx, r: &mut Rng, i: usize) {
         let mut tail: Vec<u64> = vec![];
         if r.chance(1, 2) { let l = *v2.last().unwrap(); tail = (0..r.below(4)).map(|k| l.saturating_add(k)).collect(); }
         v2.extend(tail);
-        sorted_case(cx, c, &v2, false);
+        sorted_case_via(cx, c, &v2, false, (i % 5) as u32);
     }
 }
